@@ -91,6 +91,62 @@ def ns(**kw):
     return a
 
 
+def extra_databases(case, wd, rng):
+    """Novel-ORF and alt-translation FASTAs for the same reference and cleavage settings (real runs of callNovelORF /
+    callAltTranslation), each with probability 1/2; a few sequences of the variant FASTA are additionally written into them
+    under entries of their own kind, so that one sequence occurs in several input files (their entries must be united)."""
+    from moPepGen.cli.call_novel_orf import call_novel_orf_peptide
+    from moPepGen.cli.call_alt_translation import call_alt_translation
+    cfg = case.cfg
+    novel = alt = None
+    if rng.random() < 0.5:
+        a = drivers.ref_namespace(wd)
+        drivers.cleavage_namespace(a, cfg['rule'], cfg['exception'], cfg['miscleavage'], cfg['min_mw'], cfg['min_length'], cfg['max_length'])
+        a.command = 'callNovelORF'
+        a.output_path = Path(wd) / 'novel.fasta'
+        a.output_orf = None
+        a.min_tx_length = 21
+        a.orf_assignment = 'max'
+        a.coding_novel_orf = rng.random() < 0.5
+        a.w2f_reassignment = False
+        a.inclusion_biotypes = a.exclusion_biotypes = None
+        with drivers.quiet():
+            call_novel_orf_peptide(a)
+        novel = a.output_path if os.path.exists(a.output_path) else None
+    if rng.random() < 0.5 and any(t.coding for t in case.ref.all_txs()):
+        a = drivers.ref_namespace(wd)
+        drivers.cleavage_namespace(a, cfg['rule'], cfg['exception'], cfg['miscleavage'], cfg['min_mw'], cfg['min_length'], cfg['max_length'])
+        a.command = 'callAltTranslation'
+        a.output_path = Path(wd) / 'alt.fasta'
+        a.selenocysteine_termination = True
+        a.w2f_reassignment = True
+        with drivers.quiet():
+            call_alt_translation(a)
+        alt = a.output_path if os.path.exists(a.output_path) else None
+    return novel, alt
+
+
+def inject_shared(path, fa_variant, kind, case, rng):
+    """Append up to 3 sequences of the variant FASTA to `path` under fresh entries of the file's own kind."""
+    recs = drivers.read_fasta(path)
+    have = {s for _, s in recs}
+    cands = [s for _, s in fa_variant if s not in have]
+    rng.shuffle(cands)
+    txs = list(case.ref.all_txs())
+    n = 0
+    with open(path, 'a') as fh:
+        for i, s in enumerate(cands[:rng.randint(1, 3)]):
+            tx = rng.choice(txs)
+            if kind == 'novel':
+                ent = f'{tx.id}|{tx.gene.id}|ORF{rng.randint(1, 3)}|{900 + i}'
+            else:
+                ent = f'{tx.id}|W2F-{rng.randint(1, max(1, len(s)))}|{900 + i}' if rng.random() < 0.5 else \
+                    f'{tx.id}|SECT-{rng.randint(1, 300)}|{900 + i}'
+            fh.write(f'>{ent}\n{s}\n')
+            n += 1
+    return n
+
+
 def run_case(spec):
     from moPepGen.cli.split_fasta import split_fasta
     from moPepGen.cli.merge_fasta import merge_fasta
@@ -127,8 +183,24 @@ def run_case(spec):
         fa, _ = cvmon.execute(case, wd, paths)
         if not fa:
             return {'nontrivial': False, 'feature': None, 'counters': {'cases': 1, 'empty_fasta': 1}}
-        orig = {s: set(h.split(' ')) for h, s in fa}
-        origc = {s: canon_set(h) for h, s in fa}
+        novel_fa, alt_fa = extra_databases(case, wd, rng) if spec.get('multi', True) else (None, None)
+        n_shared = 0
+        if novel_fa is not None and rng.random() < 0.7:
+            n_shared += inject_shared(novel_fa, fa, 'novel', case, rng)
+        if alt_fa is not None and rng.random() < 0.7:
+            n_shared += inject_shared(alt_fa, fa, 'alt', case, rng)
+        counters['extra_fastas'] = int(novel_fa is not None) + int(alt_fa is not None)
+        orig, origc = {}, {}
+        n_multi_file = 0
+        for pth in (Path(wd) / 'out.fasta', novel_fa, alt_fa):
+            if pth is None:
+                continue
+            for h, s_ in drivers.read_fasta(pth):
+                if s_ in orig and pth != Path(wd) / 'out.fasta':
+                    n_multi_file += 1
+                orig.setdefault(s_, set()).update(h.split(' '))
+                origc.setdefault(s_, set()).update(canon_set(h))
+        counters['sequences_in_several_files'] = n_multi_file
         tx2gene = {t.id: t.gene.id for t in case.ref.all_txs()}
         gvf_sources = [src for _, src, _ in case.files]
         label_src = {}
@@ -165,7 +237,7 @@ def run_case(spec):
             additional = ['-'.join(c) for c in combos[:rng.randint(1, 2)]]
         common_ref = dict(annotation_gtf=Path(wd) / 'annotation.gtf', proteome_fasta=Path(wd) / 'proteome.fasta')
         a = ns(command='splitFasta', gvf=[Path(p) for p in paths], variant_peptides=Path(wd) / 'out.fasta',
-               novel_orf_peptides=None, alt_translation_peptides=None, output_prefix=Path(wd) / 'split' / 'db',
+               novel_orf_peptides=novel_fa, alt_translation_peptides=alt_fa, output_prefix=Path(wd) / 'split' / 'db',
                order_source=order_arg, group_source=group_arg, max_source_groups=max_groups,
                additional_split=additional, **common_ref)
         os.makedirs(f'{wd}/split', exist_ok=True)
@@ -294,7 +366,7 @@ def run_case(spec):
                     break
         # ------------ summarize vs split (max groups unlimited => no Remaining)
         sm = ns(command='summarizeFasta', gvf=[Path(p) for p in paths], variant_peptides=Path(wd) / 'out.fasta',
-                novel_orf_peptides=None, alt_translation_peptides=None, order_source=order_arg, group_source=group_arg,
+                novel_orf_peptides=novel_fa, alt_translation_peptides=alt_fa, order_source=order_arg, group_source=group_arg,
                 output_path=Path(wd) / 'summary.txt', output_image=None, ignore_missing_source=False,
                 plot_normal_scale=False, plot_log_scale=False, cleavage_rule='trypsin', **common_ref)
         with drivers.quiet():
@@ -313,7 +385,7 @@ def run_case(spec):
             if sum(v for k, v in r.items() if k != 'n_total') != r['n_total']:
                 viol.append({'kind': 'summary-row-inconsistent', 'msg': f'{name}: {r}'})
         a2 = ns(command='splitFasta', gvf=[Path(p) for p in paths], variant_peptides=Path(wd) / 'out.fasta',
-                novel_orf_peptides=None, alt_translation_peptides=None, output_prefix=Path(wd) / 'split2' / 'db',
+                novel_orf_peptides=novel_fa, alt_translation_peptides=alt_fa, output_prefix=Path(wd) / 'split2' / 'db',
                 order_source=order_arg, group_source=group_arg, max_source_groups=20, additional_split=None, **common_ref)
         os.makedirs(f'{wd}/split2', exist_ok=True)
         with drivers.quiet():
@@ -328,6 +400,7 @@ def run_case(spec):
             if name not in rows and nrec:
                 viol.append({'kind': 'summary-missing-row', 'msg': f'split database {name} ({nrec}) has no summary row'})
         feat = (tuple(sorted(gvf_sources)), bool(group_map), order_arg is not None, max_groups, bool(additional),
+                novel_fa is not None, alt_fa is not None, n_multi_file > 0,
                 case.cfg['sect'], case.cfg['w2f'], len(dbs), str(src_fa).endswith('decoy.fasta'))
         return {'nontrivial': True, 'feature': feat, 'violations': viol, 'counters': counters,
                 'sample': {'sources': gvf_sources, 'order_source': order_arg, 'group_source': group_arg, 'max_source_groups': max_groups,
@@ -348,7 +421,9 @@ def check(rep, tier, seed, specs=None, n_override=None):
                 'partition / byte-identical sequences / entry sets preserved / database = best source set under an own implementation of the '
                 'documented ordering (fewer sources first, then source order); mergeFasta of the split files restores the input, merge of overlapping '
                 'FASTAs unites entries; encodeFasta (plain and decoyed input) inverted through the .dict; summarizeFasta totals == #peptides and '
-                'each row == size of the corresponding split database with unlimited groups. Wildcards (+,*) are not generated. '
+                'each row == size of the corresponding split database with unlimited groups. Half of the cases add a real callNovelORF and / or '
+                'callAltTranslation FASTA of the same reference as further inputs of splitFasta / summarizeFasta, with 1-3 sequences of the variant '
+                'FASTA repeated in them under entries of their own kind (entries of one sequence from several files must be united). Wildcards (+,*) are not generated. '
                 'non-trivial = non-empty FASTA; distinct = option/source vector.')
     rep.absorb(results, lost)
     for k in ('split_runs', 'merge_runs', 'encode_runs', 'summarize_runs', 'assignments'):
